@@ -21,6 +21,10 @@ import (
 // a time, after the parallel random cases.
 
 func newFineCase(seed uint64, memq int64) *caseRun {
+	return newFineCaseWith(seed, memq, nil)
+}
+
+func newFineCaseWith(seed uint64, memq int64, tweak func(*nsqd.Options)) *caseRun {
 	r := lib.NewRand(seed)
 	dir := nsqdlib.ScratchDir()
 	opts := nsqdlib.NewOpts(dir)
@@ -30,6 +34,9 @@ func newFineCase(seed uint64, memq int64) *caseRun {
 	opts.QueueScanInterval = time.Hour
 	opts.QueueScanRefreshInterval = time.Hour
 	opts.SyncEvery = 1
+	if tweak != nil {
+		tweak(opts)
+	}
 	cr := &caseRun{r: r, profile: "fine", memq: memq, dir: dir, opts: opts,
 		clients: map[int]*shClient{}, topics: map[int]bool{}, chans: map[[2]int]bool{},
 		tpaused: map[int]bool{}, cpaused: map[[2]int]bool{}, tags: map[string]int{},
@@ -641,7 +648,40 @@ func finePubWhileTopicDeleting(seed uint64) []lib.Case {
 	return []lib.Case{cr.finish("pub-vs-topic-delete#"+strconv.FormatUint(seed, 10), seed, nil, nil)}
 }
 
+// TOUCH caps the hold at max-msg-timeout after the delivery the consumer is holding — the
+// LAST delivery, not the first one of a message that was delivered before.  max-msg-timeout
+// is 6 s, the consumer's msg_timeout 5 s; the message is delivered, requeued 3.5 s later and
+// delivered again; a TOUCH 1.2 s after that runs into the cap.  A scan whose clock lies
+// between (first delivery + 6 s) and (second delivery + 6 s) must leave the message held.
+func fineTouchCapAfterRedelivery(seed uint64) []lib.Case {
+	cr := newFineCaseWith(seed, 10, func(o *nsqd.Options) { o.MaxMsgTimeout = 6 * time.Second })
+	cr.opCreateTopic(1)
+	cr.opCreateChan(1, 1)
+	k1 := cr.opConnectTmo(shortTimeoutMs, false)
+	cr.opSub(k1, 1, 1)
+	cr.opRdy(k1, 1)
+	cr.opPub(1, 1, false, false)
+	tg, id, ok := cr.someHeld(k1)
+	if !ok {
+		return []lib.Case{cr.finish("touch-cap-setup-failed#"+strconv.FormatUint(seed, 10), seed, nil, nil)}
+	}
+	time.Sleep(3500 * time.Millisecond)
+	cr.answer(k1, "REQ", tg, id, 0) // comes straight back to the same consumer: second delivery
+	tg2, id2, ok2 := cr.someHeld(k1)
+	if !ok2 || tg2 != tg {
+		return []lib.Case{cr.finish("touch-cap-setup-failed#"+strconv.FormatUint(seed, 10), seed, nil, nil)}
+	}
+	second := time.Now()
+	time.Sleep(1200 * time.Millisecond)
+	cr.answer(k1, "TOUCH", tg2, id2, 0)
+	// clock 4.2 s after the second delivery: past (first delivery + 6 s), before (second + 6 s)
+	cr.scanAt(1, 1, true, second.Add(4200*time.Millisecond).UnixNano())
+	cr.opScan(1, 1, true, scanAll)
+	return []lib.Case{cr.finish("touch-cap#"+strconv.FormatUint(seed, 10), seed, nil, nil)}
+}
+
 var fineScenarios = map[string]func(uint64) []lib.Case{
+	"touch-cap":             fineTouchCapAfterRedelivery,
 	"pub-vs-topic-delete":   finePubWhileTopicDeleting,
 	"scan-vs-empty":         func(seed uint64) []lib.Case { return fineEmptyVsRequeue(seed, false) },
 	"req-vs-empty":          func(seed uint64) []lib.Case { return fineEmptyVsRequeue(seed, true) },
@@ -665,7 +705,7 @@ var fineByProfile = map[string][]string{
 	"c08": {"deliver-vs-empty", "sub-vs-topic-delete", "fin-vs-empty", "empty-vs-wakeup", "scan-vs-empty", "req-vs-empty", "pub-vs-topic-delete"},
 	"c03": {"fin-vs-empty", "deliver-vs-empty", "pause-vs-pump"},
 	"c13": {"fin-vs-empty", "deliver-vs-empty"},
-	"c02": {"deliver-vs-disconnect", "touch-then-scan"},
-	"c04": {"touch-then-scan"},
+	"c02": {"deliver-vs-disconnect", "touch-then-scan", "touch-cap"},
+	"c04": {"touch-then-scan", "touch-cap"},
 	"c05": {"exit-vs-deliver", "exit-vs-req", "exit-vs-timeout-scan", "exit-vs-deferred-scan"},
 }
